@@ -65,6 +65,7 @@ VecFns == {"abs", "ceil", "floor", "exp", "ln", "log2", "sqrt", "sgn", "timestam
            "sort_desc", "absent", "day_of_week", "hour", "days_in_month", "sin", "acos", "deg"}
 AggOps == {"sum", "avg", "min", "max", "count", "group", "stddev", "stdvar"}
 Grps == {"", " by (a)", " without (a)", " by (a, b)", " by (__name__)", " without (le)"}
+InlineS == {"0.5", "0", "1", "2", "-1", "NaN", "scalar(m)"}
 ArithOps == {"+", "-", "*", "/", "%", "^", "atan2"}
 CmpOps == {"==", "!=", ">", "<", ">=", "<="}
 Matchings == {"", " on (a)", " ignoring (b)", " on ()", " on (a) group_left", " on (a) group_right (b)",
@@ -112,6 +113,21 @@ Templates ==
 \cup {T(<<"", "$v", " " \o o \o " bool ", "$s">>, "v", FALSE) : o \in CmpOps}
 \cup {T(<<"", "$s", " " \o o \o " ", "$s">>, "s", FALSE) : o \in ArithOps}
 \cup {T(<<"", "$s", " " \o o \o " bool ", "$s">>, "s", FALSE) : o \in CmpOps}
+\* the same multi-argument forms with the scalar / string arguments written inline, so that they are
+\* drawn as often as the one-argument functions (a random stack rarely holds the right mix of types)
+\cup {T(<<"quantile_over_time(" \o c \o ", ", "$m", ")">>, "v", TRUE) : c \in InlineS}
+\cup {T(<<"predict_linear(", "$m", ", " \o c \o ")">>, "v", TRUE) : c \in {"0", "60", "-30", "NaN", "1e308"}}
+\cup {T(<<"histogram_quantile(" \o c \o ", ", "$v", ")">>, "v", TRUE) : c \in InlineS}
+\cup {T(<<"histogram_fraction(" \o c \o ", ", "$v", ")">>, "v", TRUE) : c \in {"0, 1", "1, 0", "-Inf, +Inf", "NaN, 1", "0.5, 0.5"}}
+\cup {T(<<"round(", "$v", ", " \o c \o ")">>, "v", TRUE) : c \in {"0.5", "0", "NaN", "-2", "Inf"}}
+\cup {T(<<"clamp(", "$v", ", " \o c \o ")">>, "v", TRUE) : c \in {"0, 1", "1, 0", "NaN, 1", "-Inf, Inf"}}
+\cup {T(<<a \o "(" \o k \o ", ", "$v", ")" \o g>>, "v", TRUE) : a \in {"topk", "bottomk", "limitk"}, k \in {"1", "2", "0", "-1", "1e308", "scalar(m)"},
+                                                              g \in {"", " by (a)"}}
+\cup {T(<<a \o "(" \o k \o ", ", "$v", ")" \o g>>, "v", TRUE) : a \in {"quantile", "limit_ratio"}, k \in InlineS \cup {"-0.5"}, g \in {"", " by (a)"}}
+\cup {T(<<"count_values" \o g \o " (" \o l \o ", ", "$v", ")">>, "v", TRUE) : g \in {"", " without (a)"}, l \in {"\"v\"", "\"a\"", "\"__name__\""}}
+\cup {T(<<"sort_by_label(", "$v", ", \"a\", \"b\")">>, "v", TRUE), T(<<"sort_by_label_desc(", "$v", ", \"b\")">>, "v", TRUE)}
+\cup {T(<<"", "$v", " " \o o \o " " \o c>>, "v", FALSE) : o \in ArithOps \cup CmpOps, c \in {"0", "2", "NaN", "(-1)"}}
+\cup {T(<<c \o " " \o o \o " ", "$v">>, "v", FALSE) : o \in ArithOps \cup CmpOps, c \in {"0", "2", "Inf"}}
 
 HoleTy(x) == CASE x = "$v" -> "v" [] x = "$m" -> "m" [] x = "$s" -> "s" [] x = "$t" -> "t"
 Holes(tp) == tp.h
@@ -141,7 +157,8 @@ Params == {[k |-> "i", t |-> 100, e |-> 100, st |-> 0],
 
 -----------------------------------------------------------------------------
 Init == stack = <<>> /\ batch = <<>> /\ data \in Datasets /\ fin = FALSE /\ kind = ""
-AnyIll == \E k \in 1..Len(stack) : stack[k].ill
+\* a type-incorrect argument is only ever introduced by the first reduction of a query
+FirstReduction == \A k \in 1..Len(stack) : stack[k].d = 0
 
 \* templates that can reduce the top of the stack with nbad type-incorrect arguments
 Applicable(nbad) ==
@@ -153,12 +170,12 @@ Applicable(nbad) ==
         IN MaxD(args) < MaxDepth /\ Cardinality(bad) = nbad}
 
 \* choose what to do next: push a leaf of some type, reduce (well typed, three times as likely), reduce
-\* with one type-incorrect argument (at most once per query), or finish the query
+\* with one type-incorrect argument (only as the first reduction of a query), or finish the query
 Pick ==
   /\ ~fin /\ kind = "" /\ Len(batch) < BatchSize
   /\ kind' \in (IF Len(stack) < MaxStack THEN {"lv", "lv2", "lm", "ls", "lt"} ELSE {})
               \cup (IF Applicable(0) # {} THEN {"ap", "ap2", "ap3"} ELSE {})
-              \cup (IF IllTyped /\ ~AnyIll /\ stack # <<>> /\ Applicable(1) # {} THEN {"ia"} ELSE {})
+              \cup (IF IllTyped /\ FirstReduction /\ stack # <<>> /\ Applicable(1) # {} THEN {"ia"} ELSE {})
               \cup (IF stack # <<>> THEN {"dn"} ELSE {})
   /\ UNCHANGED <<stack, batch, data, fin>>
 
